@@ -84,6 +84,13 @@ struct Params {
     policy: u8,
     /// pipe reads may yield cooperatively (choice point)
     coop: bool,
+    /// most peers stay silent; the last-attached and the middle one send, and only after the receiver has parked on
+    /// the idle connections
+    late_few: bool,
+    /// length of an extra frame in each peer's second message (0 = none; > 255 gives a 9-byte frame header)
+    long: usize,
+    /// where, inside that frame's header, the peer's stream is cut into two deliveries (1..=8 bytes of it in the first)
+    hdr_cut: usize,
 }
 
 fn scenario(pr: &Params) -> Verdict {
@@ -101,10 +108,32 @@ fn scenario(pr: &Params) -> Verdict {
         let c = e3::raw_conn(&format!("P{}", p));
         let id = format!("ID{}", p).into_bytes();
         c.send(&rc::handshake(ty.peer_type(), Some(&id)));
-        let msgs = peer_messages(ty, p, pr.msgs);
+        let speaks = !pr.late_few || p + 1 == pr.peers || p == pr.peers / 2;
+        let mut msgs = if speaks { peer_messages(ty, p, pr.msgs) } else { Vec::new() };
+        if pr.long > 0 && msgs.len() > 1 {
+            // a big frame at the end of the second message (where that message is not the peer's last one, which
+            // keeps its trailing empty frame)
+            let big = vec![b'z'; pr.long];
+            let last = msgs.len() == 2;
+            let (wire, exp) = &mut msgs[1];
+            let at = if last { wire.len() - 1 } else { wire.len() };
+            wire.insert(at, big.clone());
+            if let Some(e) = exp {
+                let at = if last { e.len() - 1 } else { e.len() };
+                e.insert(at, big);
+            }
+        }
+        if pr.late_few {
+            c.gate("receiver-parked");
+        }
         for (j, (wire, _)) in msgs.iter().enumerate() {
             let b = rc::encode_message(wire);
-            if pr.split && j == 1 && b.len() > 4 {
+            if pr.long > 0 && pr.hdr_cut > 0 && j == 1 {
+                // the cut falls inside the big frame's header
+                let tail = if msgs.len() == 2 { 2 } else { 0 }; // the trailing empty frame's header
+                let hdr = b.len() - tail - pr.long - if pr.long > 255 { 9 } else { 2 };
+                c.send_cut(&b, &[hdr + pr.hdr_cut, b.len() - 2]);
+            } else if pr.split && j == 1 && b.len() > 4 {
                 c.send_cut(&b, &[3, b.len() - 2]);
             } else {
                 c.send(&b);
@@ -120,12 +149,19 @@ fn scenario(pr: &Params) -> Verdict {
     }
     let sock = AnySocket::new(ty, None);
     let be = sock.backend();
+    let attached = std::rc::Rc::new(std::cell::Cell::new(0usize));
+    let n_peers = pr.peers;
     for (p, c) in conns.iter().enumerate() {
         let be = be.clone();
         let c = *c;
+        let attached = attached.clone();
         world::spawn_app(&format!("attach{}", p), async move {
             let r = e3::attach_raw(be, c).await;
             world::log(format!("attach(P{}) -> {}", p, e3::ok_or_err(&r)));
+            attached.set(attached.get() + 1);
+            if attached.get() == n_peers {
+                world::set_cond("all-attached");
+            }
         });
     }
     let got = std::rc::Rc::new(std::cell::RefCell::new(Vec::<Result<Vec<Vec<u8>>, String>>::new()));
@@ -133,8 +169,34 @@ fn scenario(pr: &Params) -> Verdict {
     let parked = std::rc::Rc::new(std::cell::Cell::new(false));
     let parked2 = parked.clone();
     let n_expected = pr.peers * (pr.msgs + 1);
+    let late_few = pr.late_few;
     world::spawn_app("receiver", async move {
         let mut sock = sock;
+        if late_few {
+            // the application first has all its connections, then starts receiving
+            world::wait_cond("all-attached").await;
+            // ONE recv call stays pending while the receiver parks on the idle connections and the late peers then send:
+            // it is polled again only if its own waker fires
+            let mut first = world::own_waker_strict(sock.recv());
+            let mut r = world::until_idle(&mut first).await;
+            if r.is_none() {
+                world::log("recv parked on idle connections; now the late peers send (the same recv call stays pending)");
+                world::set_cond("receiver-parked");
+                r = world::until_idle(&mut first).await;
+            }
+            drop(first);
+            match r {
+                Some(r) => {
+                    world::log(format!("recv -> {}", e3::show_result(&r)));
+                    got2.borrow_mut().push(r.map(|m| crate::e1::frames_of(&m)).map_err(|e| e3::err_class(&e)));
+                }
+                None => {
+                    world::log("recv parked at quiescence");
+                    parked2.set(true);
+                    world::wait_cond("never").await;
+                }
+            }
+        }
         for _ in 0..(40 + n_expected) {
             match world::until_idle(sock.recv()).await {
                 Some(r) => {
@@ -142,6 +204,11 @@ fn scenario(pr: &Params) -> Verdict {
                     got2.borrow_mut().push(r.map(|m| crate::e1::frames_of(&m)).map_err(|e| e3::err_class(&e)));
                 }
                 None => {
+                    if late_few && !world::cond("receiver-parked") {
+                        world::log("recv parked on idle connections; now the late peers send");
+                        world::set_cond("receiver-parked");
+                        continue;
+                    }
                     world::log("recv parked at quiescence");
                     parked2.set(true);
                     break;
@@ -154,7 +221,7 @@ fn scenario(pr: &Params) -> Verdict {
     let end = world::run(e3::HORIZON * (1 + pr.peers as u64 / 4));
     let mut v = Verdict::default();
     v.truncated = end != world::RunEnd::Quiescent;
-    let what = format!("{} socket, {} peers x {} messages{}{}", ty.name(), pr.peers, pr.msgs, if pr.truncated_peer { ", last peer cut mid-message" } else { "" }, if pr.split { ", split deliveries" } else { "" });
+    let what = format!("{} socket, {} peers x {} messages{}{}", ty.name(), pr.peers, pr.msgs, if pr.truncated_peer { ", last peer cut mid-message" } else { "" }, if pr.split { ", split deliveries" } else { "" }).replace(" peers x", if pr.late_few { " peers (all idle but the last-attached and the middle one, which send once the receiver is parked) x" } else { " peers x" });
     let got = got.borrow().clone();
     for p in world::panics() {
         v.violate("panic", format!("{}: {}", what, p));
@@ -437,7 +504,7 @@ async fn stalled_reader_case(ty: Ty) -> Vec<(String, String)> {
 }
 
 fn params_json(p: &Params) -> serde_json::Value {
-    json!({"type": p.ty.name(), "peers": p.peers, "msgs": p.msgs, "truncated_peer": p.truncated_peer, "split": p.split, "policy": p.policy, "coop": p.coop})
+    json!({"type": p.ty.name(), "peers": p.peers, "msgs": p.msgs, "truncated_peer": p.truncated_peer, "split": p.split, "policy": p.policy, "coop": p.coop, "late_few": p.late_few, "long": p.long, "hdr_cut": p.hdr_cut})
 }
 
 fn params_from(v: &serde_json::Value) -> Option<Params> {
@@ -449,6 +516,9 @@ fn params_from(v: &serde_json::Value) -> Option<Params> {
         split: v["split"].as_bool()?,
         policy: v["policy"].as_u64().unwrap_or(0) as u8,
         coop: v["coop"].as_bool().unwrap_or(false),
+        late_few: v["late_few"].as_bool().unwrap_or(false),
+        long: v["long"].as_u64().unwrap_or(0) as usize,
+        hdr_cut: v["hdr_cut"].as_u64().unwrap_or(0) as usize,
     })
 }
 
@@ -457,13 +527,28 @@ pub fn socket_jobs(tier: Tier) -> Vec<zvcore::explore::Job> {
     let mut jobs = Vec::new();
     for ty in [Ty::Pull, Ty::Sub, Ty::Dealer, Ty::Router, Ty::Rep, Ty::XPub] {
         let mut variants = vec![
-            Params { ty, peers: 2, msgs: 2, truncated_peer: false, split: true, policy: 0, coop: false },
-            Params { ty, peers: 2, msgs: 3, truncated_peer: true, split: false, policy: 0, coop: false },
-            Params { ty, peers: 1, msgs: 3, truncated_peer: false, split: true, policy: 0, coop: false },
+            Params { ty, peers: 2, msgs: 2, truncated_peer: false, split: true, policy: 0, coop: false, late_few: false, long: 0, hdr_cut: 0 },
+            Params { ty, peers: 2, msgs: 3, truncated_peer: true, split: false, policy: 0, coop: false, late_few: false, long: 0, hdr_cut: 0 },
+            Params { ty, peers: 1, msgs: 3, truncated_peer: false, split: true, policy: 0, coop: false, late_few: false, long: 0, hdr_cut: 0 },
         ];
-        variants.push(Params { ty, peers: 3, msgs: 2, truncated_peer: true, split: true, policy: 0, coop: false });
+        variants.push(Params { ty, peers: 3, msgs: 2, truncated_peer: true, split: true, policy: 0, coop: false, late_few: false, long: 0, hdr_cut: 0 });
         if thorough {
-            variants.push(Params { ty, peers: 3, msgs: 3, truncated_peer: false, split: false, policy: 0, coop: false });
+            variants.push(Params { ty, peers: 3, msgs: 3, truncated_peer: false, split: false, policy: 0, coop: false, late_few: false, long: 0, hdr_cut: 0 });
+        }
+        // big frames: the peer's stream is cut after 1..8 bytes of the 9-byte header of a 300-byte frame (and after the
+        // one flags byte of a 200-byte frame's 2-byte header)
+        for hdr_cut in 1..=8usize {
+            let pr = Params { ty, peers: 2, msgs: if hdr_cut % 2 == 0 { 2 } else { 3 }, truncated_peer: false, split: true, policy: 0, coop: false, late_few: false, long: 300, hdr_cut };
+            let pr2 = pr.clone();
+            jobs.push(e3::job(format!("C05/{}/long300/hdr-cut{}", ty.name(), hdr_cut), params_json(&pr), tier.pick(0, 1), 20_000, move || scenario(&pr2)));
+        }
+        {
+            let pr = Params { ty, peers: 2, msgs: 2, truncated_peer: false, split: true, policy: 0, coop: false, late_few: false, long: 200, hdr_cut: 1 };
+            let pr2 = pr.clone();
+            jobs.push(e3::job(format!("C05/{}/long200/hdr-cut1", ty.name()), params_json(&pr), tier.pick(0, 1), 20_000, move || scenario(&pr2)));
+            let pr = Params { ty, peers: 2, msgs: 3, truncated_peer: false, split: true, policy: 0, coop: false, late_few: false, long: 70_000, hdr_cut: 5 };
+            let pr2 = pr.clone();
+            jobs.push(e3::job(format!("C05/{}/long70000/hdr-cut5", ty.name()), params_json(&pr), 0, 20_000, move || scenario(&pr2)));
         }
         let variants: Vec<Params> = variants
             .into_iter()
@@ -510,10 +595,14 @@ pub fn socket_jobs(tier: Tier) -> Vec<zvcore::explore::Job> {
     for ty in [Ty::Pull, Ty::Sub, Ty::Dealer, Ty::Router, Ty::Rep, Ty::XPub] {
         for &peers in tier.pick(&[17usize, 65, 130][..], &[17usize, 65, 130, 257, 520][..]) {
             for (policy, coop) in [(0u8, false), (1, false), (2, false), (0, true)] {
-                let pr = Params { ty, peers, msgs: 2, truncated_peer: false, split: peers % 2 == 1, policy, coop };
+                let pr = Params { ty, peers, msgs: 2, truncated_peer: false, split: peers % 2 == 1, policy, coop, late_few: false, long: 0, hdr_cut: 0 };
                 let pr2 = pr.clone();
                 jobs.push(e3::job(format!("C05/scale/{}/{}peers/policy{}{}", ty.name(), peers, policy, if coop { "/coop" } else { "" }), params_json(&pr), 0, 1000, move || scenario(&pr2)));
             }
+            // the same number of connections, nearly all idle: two of them speak once the receiver is parked
+            let pr = Params { ty, peers, msgs: 2, truncated_peer: false, split: false, policy: 0, coop: false, late_few: true, long: 0, hdr_cut: 0 };
+            let pr2 = pr.clone();
+            jobs.push(e3::job(format!("C05/scale/{}/{}peers/late-few", ty.name(), peers), params_json(&pr), 0, 1000, move || scenario(&pr2)));
         }
     }
     jobs
